@@ -91,6 +91,9 @@ func genC14(t *rapid.T) C14Case {
 				}
 				v := gen.Pick(t, "v", []string{"", "v", "a=b", "=", "==x", "a b", "ü", "\xff\xfe\x00\x01", "caf\xc3", "gr\xfc\xdf dich", "\x00", "a\nb", "\xc3\x28=\xa0\xa1"})
 				// entries are kept Go-quoted in the case: JSON cannot carry arbitrary bytes
+				if rapid.IntRange(0, 7).Draw(t, "bare") == 0 {
+					return strconv.Quote(k) // a bare name, no '=': FromOCIEnv gives it an empty value
+				}
 				return strconv.Quote(k + "=" + v)
 			}), 0, 5).Draw(t, "env")
 			if c.Env == nil {
@@ -672,6 +675,17 @@ func runC14(c C14Case) ev.Outcome {
 			return ev.Failf("FromOCIEnv: %d in, %d out", len(env), len(kv))
 		}
 		for i, e := range kv {
+			if !strings.Contains(env[i], "=") {
+				// a bare name carries a name and no value (ToOCI writes it back as "name=")
+				o.Classes = append(o.Classes, "env:bare_name")
+				if i > 0 {
+					o.NonTrivial = true
+				}
+				if e.Key != env[i] || e.Value != "" {
+					return ev.Failf("env %d: bare entry %q -> key %q value %q (entries before it: %q)", i, env[i], e.Key, e.Value, env[:i])
+				}
+				continue
+			}
 			if got := e.ToOCI(); got != env[i] {
 				return ev.Failf("env %d round trip: in %q out %q", i, env[i], got)
 			}
